@@ -70,10 +70,7 @@ func (n *SimNet) RoundTrip(req *http.Request) (*http.Response, error) {
 		body, _ = io.ReadAll(req.Body)
 		req.Body.Close()
 	}
-	pq := req.URL.Path
-	if req.URL.RawPath != "" {
-		pq = req.URL.RawPath
-	}
+	pq := req.URL.EscapedPath() // the path as it goes on the wire
 	if req.URL.RawQuery != "" {
 		pq += "?" + req.URL.RawQuery
 	}
